@@ -276,6 +276,8 @@ def main(argv=None):
     # lower layers whose specifications this check relies on: their obligations are part of this check's claim (framework.Check.include)
     for dep in ['C06', 'C02', 'C03', 'C04', 'C05', 'C07', 'C01', 'C08', 'C10', 'C19', 'C20']:
         chk.include(dep)
+    # objects that arrive through unmarshal are the marshalled ones (parameters and keys loaded from bytes are part of 'reachable through the API'): C15's own obligations
+    chk.include("C15")
     # the statements start from an arbitrary well-formed key; that the key-producing operations return exactly such keys (the induction step
     # over delegation histories) is C11's claim, and part of this one
     chk.include("C11", only=r"^(keygen|nondelegable_keygen|resamplekey|qualifykey|nondelegable_qualifykey|adjust_nondelegable):")
